@@ -186,11 +186,19 @@ func cmdVerify(pat string, to int, dump, verbose bool) int {
 			}
 			fmt.Printf("%s [%s]: %d/%d obligations ok\n", fr.Key, fr.Mode, okN, len(fr.Obls))
 			for _, o := range fr.Obls {
+				if dumpAll != "" && strings.Contains(o.Name, dumpAll) {
+					f := filepath.Join("/var/tmp", sanitize(o.Name)+".smt2")
+					_ = os.WriteFile(f, []byte(fr.VC.scriptFor(o)+"(check-sat)\n"), 0o644)
+					fmt.Printf("   dumped %s\n", f)
+				}
 				if o.ok() && !verbose {
 					continue
 				}
 				if o.Expect == "sat" && o.Result.Status != "unsat" && !verbose {
 					continue // cover query inconclusive (quantifiers): not a failure
+				}
+				if o.Expect == "sat" && o.Result.Status == "unsat" && (o.Kind == "cover:before-call" || (o.Kind == "cover:after-call" && (o.Before == nil || o.Before.Result.Status != "sat"))) && !verbose {
+					continue // dead code under the contract
 				}
 				fmt.Printf("   %-6s %-8s %s  @%s (%s, %dms)\n", map[bool]string{true: "ok", false: "FAIL"}[o.ok()], o.Result.Status, o.Name, o.Pos, o.Result.Backend, o.Result.Ms)
 				if !o.ok() {
@@ -252,3 +260,5 @@ func cmdImpls(names []string) int {
 	}
 	return 0
 }
+
+var dumpAll = os.Getenv("GOVC_DUMP")
